@@ -275,6 +275,7 @@ impl TypedProp for C01 {
         let mut multi_custom_tick = false;
         let mut custom_change_in_input = false;
         let mut queue_overflowed = false;
+        let mut overflow_left_decision_pending = false;
         let mut states_full = false;
         // the queue was seen full after a tick: the layout's own pushes (virtual key taps of a
         // macro, chord replays) then evict events just like an input does
@@ -348,7 +349,26 @@ impl TypedProp for C01 {
                             Ev::Repeat(_) => KeyValue::Repeat,
                             _ => KeyValue::Tap,
                         };
+                        // what F6 describes: on overflow every pending decision is forced. An
+                        // overflow after which the very same tap-hold decision is still pending
+                        // is not that known behaviour, and is not attributed to it.
+                        fn pending_tap_hold(s: &Sim) -> Option<String> {
+                            let l = s.k.layout.b();
+                            let w = l.waiting.as_ref()?;
+                            let d = format!("{w:?}");
+                            if !d.contains("config: HoldTap(") {
+                                return None;
+                            }
+                            let i = d.find("coord: (")?;
+                            let j = d[i..].find(')')?;
+                            Some(d[i..i + j + 1].to_string())
+                        }
+                        let was_full = sim.k.layout.b().queue.len() >= 32;
+                        let pending_before = if was_full { pending_tap_hold(&sim) } else { None };
                         sim.input(*k, val);
+                        if was_full && pending_before.is_some() && pending_tap_hold(&sim) == pending_before {
+                            overflow_left_decision_pending = true;
+                        }
                         if diff(&before, &customs(&sim)) > 0 {
                             custom_change_in_input = true;
                         }
@@ -520,7 +540,7 @@ impl TypedProp for C01 {
                 f.sig = f.sig.replacen("stuck:", "stuck:chords-v2-more-than-16-events-in-one-tick:", 1);
             }
             v.classes.push("chords-v2-burst>16");
-        } else if custom_change_in_input || queue_overflowed || queue_full_seen {
+        } else if (custom_change_in_input || queue_overflowed || queue_full_seen) && !overflow_left_decision_pending {
             // F6: an event pushed out of the full 32-slot queue is processed inside the input
             // call, out of order with the pending decisions, and its custom event is dropped.
             if let Some(f) = v.fail.as_mut() {
